@@ -350,15 +350,15 @@ def generate(rng, tier, scale=1):
                     cfg = {"script": h, "wait": wait, "cs": 2, "with": (hi % 5 == 0 and h[-1] == ["close"])}
                     if cfg["with"]:
                         cfg["script"] = h[:-1]
-                    cases += explore(cfg, 2 if quick else 3, 1500 if quick else 12000)
+                    cases += explore(cfg, 2 if quick else 3, 1500 if quick else 3000)
             for h in HISTORIES_2:
                 for wait in (False, True):
                     cfg = {"script": h, "wait": wait, "cs": 2, "with": False}
-                    cases += explore(cfg, 1 if quick else 2, 400 if quick else 6000)
+                    cases += explore(cfg, 1 if quick else 2, 400 if quick else 2500)
             for h in HISTORIES_3:
                 for wait in (False, True):
                     cfg = {"script": h, "wait": wait, "cs": 3, "with": False}
-                    cases += explore(cfg, 1 if quick else 2, 200 if quick else 5000)
+                    cases += explore(cfg, 1 if quick else 2, 200 if quick else 2000)
             if not quick:
                 # chunk counts 0..4 for every one-player history
                 for h in HISTORIES_1:
@@ -366,9 +366,9 @@ def generate(rng, tier, scale=1):
                         n = max(0, 2 * nchunks - (nchunks % 2))
                         cfg = {"script": [[c[0], n] if c[0] == "play" else list(c) for c in h],
                                "wait": bool(nchunks % 2), "cs": 2, "with": False}
-                        cases += explore(cfg, 2, 3000)
+                        cases += explore(cfg, 2, 600)
         # random schedules over random variations of the histories
-        nrand = (60 if quick else 1500) * scale
+        nrand = (60 if quick else 800) * scale
         pool = HISTORIES_1 + HISTORIES_2 + HISTORIES_3
         for _ in range(nrand):
             h = _resize(rng.choice(pool), rng, 0, 7)
